@@ -19,9 +19,12 @@ class RuleDef:
         self.configs = configs
 
 
-def rule(rid, props, floor=1, title="", configs=("default",)):
+def rule(rid, props, floor=1, title="", configs=("default",), scope_all=False):
     def deco(fn):
         RULES[rid] = RuleDef(rid, fn, props, floor, title or (fn.__doc__ or "").strip().split("\n")[0], configs)
+        # scope_all: the rule is a necessary condition of every listed property wherever the construct lives
+        # (no attribution by anchor files)
+        RULES[rid].scope_all = scope_all
         for p in props:
             PROP_RULES.setdefault(p, []).append(rid)
         return fn
